@@ -221,6 +221,24 @@ def generate(enums, kinds, bulk_kinds=()):
         for old_, new_ in (('@TITLE@', title), ('@RELDEF@', reldef), ('@WHO@', who), ('@REC2@', rec2), ('@R@', R), ('@T@', oc['T']), ('@Q@', Q), ('@FROM@', frm), ('@SCALE@', scale), ('/*@ARMS@*/', '\n'.join(arms))):
             t = t.replace(old_, new_)
         return t, ['lemma_%s_set' % R, 'lemma_%s_rec' % R, 'lemma_%s_out' % R, 'lemma_%s_step' % R, 'lemma_%s_run' % R]
+    def trace_block(pc, ic):
+        """C04/C20: the trace the interval interpreter returns is valid at every covered point: generated operand selectors"""
+        ops_p, ops_i, kk = [], [], []
+        for v, fs in enums['RegOp']:
+            b, form = split_variant(v)
+            if form == 'special' or b not in pc['CH']:
+                continue
+            k = bases.index(b)
+            if form == 'RegImm':
+                ops_p.append('        RegOp::%s(o, a, imm) => (s.slots[a as int], imm),' % v)
+                ops_i.append('        RegOp::%s(o, a, imm) => (s.slots[a as int], iv_from(imm)),' % v)
+            elif form == 'RegReg':
+                ops_p.append('        RegOp::%s(o, a, b) => (s.slots[a as int], s.slots[b as int]),' % v)
+                ops_i.append('        RegOp::%s(o, a, b) => (s.slots[a as int], s.slots[b as int]),' % v)
+            else:
+                raise ExtractError('choice opcode with unexpected form: %s' % v)
+            kk.append('        RegOp::%s(..) => %d,' % (v, k))
+        return TRACE_TEMPLATE.replace('/*@OPS_P@*/', '\n'.join(ops_p)).replace('/*@OPS_I@*/', '\n'.join(ops_i)).replace('/*@KK@*/', '\n'.join(kk))
     pcs = [c for c in kinds if c['T'] == 'f32']
     ics = [c for c in kinds if c['T'] == 'Interval']
     gcs = [c for c in bulk_kinds if c['T'] == 'Grad']
@@ -231,6 +249,8 @@ def generate(enums, kinds, bulk_kinds=()):
                           'iv_from', 'iv_scale')
         A(t)
         lemmas += ls
+        A(trace_block(pcs[0], ics[0]))
+        lemmas += ['lemma_i_step_ch', 'lemma_i_ch_stable', 'lemma_i_unwritten', 'lemma_i_ch_written', 'lemma_clause_valid', 'lemma_trace_valid']
     if bulk_kinds:
         A(BULK_SHARED)
         ds = ['pub open spec fn dst_slot(op: RegOp) -> int {\n    match op {']
@@ -684,6 +704,122 @@ pub proof fn lemma_@R@_run(t: Seq<RegOp>, n: nat, p0: p_St, i0: @Q@St, pin: Seq<
         lemma_p_run_shape(t, (n - 1) as nat, p0, pin);
         lemma_@R@_step(t[t.len() - n], p_run(t, (n - 1) as nat, p0, pin), @Q@run(t, (n - 1) as nat, i0, iin), pin, iin, ns, no, nv);
     }
+}
+"""
+
+TRACE_TEMPLATE = r"""
+// =================== composition (C04, C20): the returned interval trace is valid at every covered point ===================
+/// operands of a choice clause in a point state / an interval state, and its opcode base
+pub open spec fn cl_p(op: RegOp, s: p_St) -> (f32, f32) {
+    match op {
+/*@OPS_P@*/
+        _ => (0.0f32, 0.0f32),
+    }
+}
+pub open spec fn cl_i(op: RegOp, s: i_St) -> (Interval, Interval) {
+    match op {
+/*@OPS_I@*/
+        _ => (iv_from(0.0f32), iv_from(0.0f32)),
+    }
+}
+pub open spec fn cl_k(op: RegOp) -> int {
+    match op {
+/*@KK@*/
+        _ => 0,
+    }
+}
+/// per clause (for the real code: Kani harnesses `*_choice__valid_at_every_point`): a decided interval choice selects, at every
+/// covered point, an operand whose value is bit for bit the value of the clause
+pub open spec fn ch_ops() -> bool {
+    forall|k: int, x: f32, y: f32, a: Interval, b: Interval| #![trigger p_bin(k, x, y), i_ch(k, a, b)]
+        enc(x, a) && enc(y, b) ==> (i_ch(k, a, b) == Choice::Left ==> p_bin(k, x, y) == x) && (i_ch(k, a, b) == Choice::Right ==> p_bin(k, x, y) == y)
+}
+/// the op executed as number n (0-based)
+pub open spec fn op_at(t: Seq<RegOp>, n: int) -> RegOp { t[t.len() - 1 - n] }
+/// entries below the cursor are never written again
+pub proof fn lemma_i_ch_stable(t: Seq<RegOp>, n: nat, m: nat, s0: i_St, inp: Seq<Interval>, j: int)
+    requires n <= m <= t.len(), 0 <= j < i_run(t, n, s0, inp).k, s0.k >= 0
+    ensures i_run(t, m, s0, inp).ch[j] == i_run(t, n, s0, inp).ch[j], i_run(t, m, s0, inp).k >= i_run(t, n, s0, inp).k
+    decreases m - n
+{
+    if n < m {
+        lemma_i_ch_stable(t, n, (m - 1) as nat, s0, inp, j);
+        lemma_i_run_shape(t, (m - 1) as nat, s0, inp);
+        lemma_i_run_shape(t, n, s0, inp);
+    }
+}
+/// one step touches at most the trace entry under the cursor, and moves the cursor by at most one
+pub proof fn lemma_i_step_ch(op: RegOp, s: i_St, inp: Seq<Interval>, j: int)
+    requires j != s.k || i_step(op, s, inp).k == s.k
+    ensures i_step(op, s, inp).ch[j] == s.ch[j], s.k <= i_step(op, s, inp).k <= s.k + 1, i_step(op, s, inp).ch.len() == s.ch.len()
+{
+}
+/// entries at or above the cursor are still Unknown
+pub proof fn lemma_i_unwritten(t: Seq<RegOp>, n: nat, s0: i_St, inp: Seq<Interval>, j: int)
+    requires n <= t.len(), s0.k == 0, s0.ch == all_unknown(s0.ch.len()), i_run(t, n, s0, inp).k <= j < s0.ch.len()
+    ensures i_run(t, n, s0, inp).ch[j] == Choice::Unknown
+    decreases n
+{
+    if n > 0 {
+        let prev = i_run(t, (n - 1) as nat, s0, inp);
+        lemma_i_step_ch(t[t.len() - n], prev, inp, j);
+        lemma_i_unwritten(t, (n - 1) as nat, s0, inp, j);
+    }
+}
+/// the clause executed as number n writes its choice into the entry its cursor points at (the trace starts cleared)
+pub proof fn lemma_i_ch_written(t: Seq<RegOp>, n: nat, s0: i_St, inp: Seq<Interval>)
+    requires n < t.len(), is_choice(op_at(t, n as int)), s0.k == 0, s0.ch == all_unknown(s0.ch.len()), cnt_ch(t, t.len()) <= s0.ch.len()
+    ensures ({
+        let s = i_run(t, n, s0, inp);
+        let c = cl_i(op_at(t, n as int), s);
+        i_run(t, t.len(), s0, inp).ch[s.k] == i_ch(cl_k(op_at(t, n as int)), c.0, c.1)
+    })
+{
+    let s = i_run(t, n, s0, inp);
+    lemma_i_run_shape(t, n, s0, inp);
+    lemma_cnt_mono(t, (n + 1) as nat, t.len());
+    lemma_i_unwritten(t, n, s0, inp, s.k);
+    let s1 = i_run(t, (n + 1) as nat, s0, inp);
+    assert(s1 == i_step(op_at(t, n as int), s, inp));
+    lemma_i_run_shape(t, (n + 1) as nat, s0, inp);
+    lemma_i_ch_stable(t, (n + 1) as nat, t.len(), s0, inp, s.k);
+}
+/// the clause executed as number n is valid at the point: from enclosure of the two runs and the per-clause hypothesis
+pub proof fn lemma_clause_valid(t: Seq<RegOp>, n: nat, p0: p_St, i0: i_St, pin: Seq<f32>, iin: Seq<Interval>, ns: int, no: int, nv: int)
+    requires enc_ops(), ch_ops(), enc_st(p0, i0), enc_seq(pin, iin), n < t.len(), p0.slots.len() == ns, p0.outs.len() == no, pin.len() >= nv,
+        forall|k: int| 0 <= k < t.len() ==> op_ok(#[trigger] t[k], ns, no, nv), is_choice(op_at(t, n as int))
+    ensures ({
+        let op = op_at(t, n as int);
+        let ps = p_run(t, n, p0, pin); let is_ = i_run(t, n, i0, iin);
+        let (x, y) = cl_p(op, ps); let (a, b) = cl_i(op, is_);
+        let c = i_ch(cl_k(op), a, b);
+        (c == Choice::Left ==> p_bin(cl_k(op), x, y) == x) && (c == Choice::Right ==> p_bin(cl_k(op), x, y) == y)
+    })
+{
+    lemma_enc_run(t, n, p0, i0, pin, iin, ns, no, nv);
+    lemma_p_run_shape(t, n, p0, pin);
+    let op = op_at(t, n as int);
+    let ps = p_run(t, n, p0, pin); let is_ = i_run(t, n, i0, iin);
+    assert(op_ok(op, ns, no, nv));
+    let (x, y) = cl_p(op, ps); let (a, b) = cl_i(op, is_);
+    assert(enc(x, a) && enc(y, b));
+}
+/// whole tapes: every entry of the returned interval trace that is Left (Right) belongs to a clause whose value, in the point
+/// run at any covered point, is bit for bit its left (right) operand
+pub proof fn lemma_trace_valid(t: Seq<RegOp>, n: nat, p0: p_St, i0: i_St, pin: Seq<f32>, iin: Seq<Interval>, ns: int, no: int, nv: int)
+    requires enc_ops(), ch_ops(), enc_st(p0, i0), enc_seq(pin, iin), n < t.len(), p0.slots.len() == ns, p0.outs.len() == no, pin.len() >= nv,
+        forall|k: int| 0 <= k < t.len() ==> op_ok(#[trigger] t[k], ns, no, nv), is_choice(op_at(t, n as int)),
+        i0.k == 0, i0.ch == all_unknown(i0.ch.len()), cnt_ch(t, t.len()) <= i0.ch.len()
+    ensures ({
+        let op = op_at(t, n as int);
+        let ps = p_run(t, n, p0, pin);
+        let (x, y) = cl_p(op, ps);
+        let c = i_run(t, t.len(), i0, iin).ch[i_run(t, n, i0, iin).k];
+        (c == Choice::Left ==> p_bin(cl_k(op), x, y) == x) && (c == Choice::Right ==> p_bin(cl_k(op), x, y) == y)
+    })
+{
+    lemma_clause_valid(t, n, p0, i0, pin, iin, ns, no, nv);
+    lemma_i_ch_written(t, n, i0, iin);
 }
 """
 
